@@ -359,7 +359,7 @@ func (g *genState) toyVsStdlib(in, obs Sx) {
 		}
 		g.out.GoChecked++
 		if !bytes.Equal(got, want) {
-			violation(g.out, fmt.Sprintf("C16/stdlib-cfb/toy%d", bs), fmt.Sprintf("unrolled CFB over a toy %d-byte block differs from crypto/cipher CFB (op %d, length %d)", bs, i, len(src)), List(in, obs))
+			violation(g.out, fmt.Sprintf("C16/stdlib-cfb/toy%d", bs), fmt.Sprintf("unrolled CFB over a toy %d-byte block differs from crypto/cipher CFB (op %d, length %d)", bs, i, len(src)), in)
 			return
 		}
 		// separate destination
@@ -373,7 +373,7 @@ func (g *genState) toyVsStdlib(in, obs Sx) {
 		})
 		g.out.GoChecked++
 		if p || !bytes.Equal(dst, want) {
-			violation(g.out, fmt.Sprintf("C16/separate-dst/toy%d", bs), "encrypt/decrypt into a separate destination differs from the in-place result", List(in, obs))
+			violation(g.out, fmt.Sprintf("C16/separate-dst/toy%d", bs), "encrypt/decrypt into a separate destination differs from the in-place result", in)
 			return
 		}
 	}
@@ -525,7 +525,7 @@ func factorySweep(a Args, out *Out, rng *Rng) {
 				if nm == "" {
 					nm = "default"
 				}
-				violation(out, "C16/factory/"+nm+"/"+code, fmt.Sprintf("cipher %q, message length %d: %s", rc.name, n, what), List(in, run(in)))
+				violation(out, "C16/factory/"+nm+"/"+code, fmt.Sprintf("cipher %q, message length %d: %s", rc.name, n, what), in)
 			}
 			var enc, dec xcipher.BlockCryptor
 			if p, v := Catch(func() {
